@@ -19,7 +19,10 @@ func vpScalar(v string) *yaml.Node {
 func vpMergeKey() *yaml.Node {
 	return &yaml.Node{Kind: yaml.ScalarNode, Tag: "!!merge", Value: "<<"}
 }
-func vpAlias(n *yaml.Node) *yaml.Node { return &yaml.Node{Kind: yaml.AliasNode, Alias: n} }
+// vpAlias: the parser gives an alias node the anchor's name as its Value.
+func vpAlias(n *yaml.Node) *yaml.Node {
+	return &yaml.Node{Kind: yaml.AliasNode, Alias: n, Value: n.Anchor}
+}
 func vpSeq(items ...*yaml.Node) *yaml.Node {
 	return &yaml.Node{Kind: yaml.SequenceNode, Tag: "!!seq", Content: items}
 }
@@ -241,7 +244,9 @@ func vpFillMapping(m *yaml.Node, pool []*yaml.Node, n int, allowNested bool) {
 				vpAssume(o != k)
 			}
 			keys = append(keys, k)
-			m.Content = append(m.Content, vpAlias(vpScalar(k)), vpScalar(vpStr(1, "x-y")))
+			anchored := vpScalar(k)
+			anchored.Anchor = vpStr(1, "a-b") // anchor names live in their own namespace but may coincide with keys
+			m.Content = append(m.Content, vpAlias(anchored), vpScalar(vpStr(1, "x-y")))
 		case 6: // key: {nested mapping}  /  <<: {inline mapping}
 			vpAssume(allowNested)
 			inner := vpMapping()
@@ -256,6 +261,7 @@ func vpFillMapping(m *yaml.Node, pool []*yaml.Node, n int, allowNested bool) {
 }
 
 func vpCheckDecode(root *yaml.Node) {
+	vpBoundedRecursion()
 	st := &vpRefState{}
 	want := vpRefDecode(root, nil, st)
 	got, err := DecodeYAML(root)
@@ -279,10 +285,10 @@ func vpH_c07_graph() {
 	pool := make([]*yaml.Node, np)
 	for i := range pool {
 		pool[i] = vpMapping()
-		pool[i].Anchor = "p"
+		pool[i].Anchor = "p" + string(rune('0'+i))
 	}
 	for i := range pool {
-		vpFillMapping(pool[i], pool, vpInt(1, vpParam("poolentries")), false)
+		vpFillMapping(pool[i], pool, vpInt(1, vpParam("poolentries")), vpParam("poolnested") > 0)
 	}
 	root := vpMapping()
 	vpFillMapping(root, pool, vpInt(1, vpParam("rootentries")), true)
